@@ -96,19 +96,37 @@ def run(chk):
     sim = simulate(chk, 'MC_System_%s_sim.cfg' % pid, 120 if tier == 'quick' else 4000, 9, chk.seed)
     allb = full + sim
     indexed = list(enumerate(allb, 1))
-    chunks = [indexed[i::core.NPROC * 2] for i in range(core.NPROC * 2)]
-    obs = []
-    import time as _t
-    t1 = _t.time()
-    for part in core.parallel_map(_exec, [(c, chk.seed) for c in chunks if c]):
-        obs += part
-    chk.extra['exec_wall_s'] = round(_t.time() - t1, 1)
+    chk.exhaustive = True
+    sat = []
     if pid == 'C02':
         n = 320 if tier == 'quick' else 8000
-        for part in core.parallel_map(_c02_sat, [(chk.seed * 1000 + i, n // core.NPROC + 1) for i in range(core.NPROC)]):
+        sat = [(chk.seed * 1000 + i, n // core.NPROC + 1) for i in range(core.NPROC)]
+    if tier == 'quick':
+        chunks = [indexed[i::core.NPROC * 2] for i in range(core.NPROC * 2)]
+        obs = []
+        for part in core.parallel_map(_exec, [(c, chk.seed) for c in chunks if c]):
             obs += part
-    chk.exhaustive = True
-    return obs
+        for part in core.parallel_map(_c02_sat, sat):
+            obs += part
+        return obs
+    return _gen(indexed, sat, chk.seed)
+
+
+def _gen(indexed, sat, seed):
+    """thorough tier: behaviours are executed and validated in slices (bounded memory)"""
+    step = 40000
+    for k in range(0, len(indexed), step):
+        part_b = indexed[k:k + step]
+        chunks = [part_b[i::core.NPROC * 2] for i in range(core.NPROC * 2)]
+        obs = []
+        for part in core.parallel_map(_exec, [(c, seed) for c in chunks if c]):
+            obs += part
+        yield obs
+    if sat:
+        obs = []
+        for part in core.parallel_map(_c02_sat, sat):
+            obs += part
+        yield obs
 
 
 def _maximal(behs):
